@@ -280,6 +280,14 @@ func runC06(c *mon.Ctx) {
 						b[7] ^= 0x10
 						fv.Get("signatures").Get(cs[0]).Set(cs[1], ref.S(base64.RawStdEncoding.EncodeToString(b)))
 					}
+					if nExtra > 0 && caseNo%3 == 0 {
+						// entries that are no ed25519 signatures at all - of a server nobody asked about, and under another
+						// key ID of a required one: not this verification's business either
+						fv.Get("signatures").Set("exotic.example", gen.Pick(r, []*ref.Value{ref.O("x-dilithium:1", ref.O("a", ref.I(1))), ref.O("ed25519:zz", ref.I(12345)), ref.O("ed25519:1", ref.NullV())}))
+						if own := fv.Get("signatures").Get(sSender); own != nil && own.K == ref.Obj && caseNo%2 == 0 {
+							own.Set("x-future:1", ref.O("sig", ref.S("AAAA")))
+						}
+					}
 					final, err := impl.NewEventFromTrustedJSON(gen.Plain().Bytes(fv), false)
 					if err != nil {
 						c.Failf("harness:reparse", "%v", err)
